@@ -316,6 +316,17 @@ class Interp:
                     break
                 except _Continue:
                     continue
+        elif isinstance(st, (ast.With, ast.AsyncWith)):
+            # context managers of the environment (locks, shields, traces): entering and leaving are recorded,
+            # the body runs in between; an exception raised in the body propagates (no manager suppresses it)
+            for item in st.items:
+                text = ast.unparse(item.context_expr)
+                self.path.calls.append(("with:" + text, (), {}))
+                if item.optional_vars is not None:
+                    self.assign(item.optional_vars, Obj(), f)
+            self.exec_block(st.body, f)
+            for item in st.items:
+                self.path.calls.append(("end-with:" + ast.unparse(item.context_expr), (), {}))
         elif isinstance(st, ast.Return):
             raise _Return(None if st.value is None else self.eval(st.value, f))
         elif isinstance(st, ast.Raise):
@@ -459,6 +470,10 @@ class Interp:
         raise Unsupported(f"expression {type(e).__name__}")
 
     def binop(self, op: ast.operator, a: typing.Any, b: typing.Any) -> typing.Any:
+        if isinstance(a, Opt):
+            a = a.val  # arithmetic on the payload is only reached under an `is not None` guard
+        if isinstance(b, Opt):
+            b = b.val
         if isinstance(op, ast.Add):
             if isinstance(a, (bytes, bytearray)) and isinstance(b, (bytes, bytearray)):
                 return a + b
